@@ -29,7 +29,7 @@ RULE = (
 
 def units(tier, seed):
     fam = G.general_family(tier)
-    sel = [s for s in fam if s["name"].split(":")[0] in ("S1", "S2", "S3", "S5", "S6", "S7", "S8", "S9", "S10", "S12", "S14", "S17")]
+    sel = [s for s in fam if s["name"].split(":")[0] in ("S1", "S2", "S3", "S5", "S6", "S7", "S8", "S9", "S10", "S12", "S14", "S17", "S22", "S27", "S28")]
     sel += [s for s in fam if s["name"].startswith(("F1:", "G1:"))]
     if tier != "quick":
         sel = fam
@@ -87,6 +87,13 @@ def genotypes(ctx, unit):
 
             probe = make_rep("sge", ctx.g, ScriptedSource([0]), 10**5, gene_length=1).create_genotype(ScriptedSource([0]))
             out.append(Genotype({k: (list(dna) if k == INFRASTRUCTURE_KEY else [1] * L) for k in probe.dna.keys()}))
+    if rep_kind == "stack":
+        # genomes found by explicit-state search of the stack machine itself: they complete a program (also after
+        # failed draws), which enumerated short genomes rarely do
+        from geneticengine.representations.stackgggp import Genotype
+
+        for genome, _ in P.stack_guided_genomes(ctx.g):
+            out.append(Genotype(list(genome)))
     return out
 
 
@@ -116,13 +123,16 @@ def run_unit(unit) -> UnitResult:
                                       f"({e}): the mapping depends on state outside the genotype"))
             return r
 
-        def map_once(gt0):
+        def map_once(gt0, grammar=None):
             g1 = gt0
             if rep_kind == "dsge":
                 from geneticengine.representations.grammatical_evolution.dynamic_structured_ge import Genotype as _G
 
                 g1 = _G(ExhaustiveSource((), wide_domain=gene_domain(P.GENES_DSGE)), {k: list(v) for k, v in gt0.dna.items()})
             try:
+                if grammar is not None:
+                    rep2 = make_rep(rep_kind, grammar, ExhaustiveSource(()), d, gene_length=L, decider=unit["decider"])
+                    return R.term(rep2.genotype_to_phenotype(g1))
                 return R.term(mk(ExhaustiveSource(())).genotype_to_phenotype(g1))
             except HorizonExceeded:
                 return ("<horizon>",)
@@ -237,6 +247,86 @@ def run_unit(unit) -> UnitResult:
                                           f"{ctx.spec['name']}: a genotype mapped to {_show(t0)[:80]} at the start of the history and to "
                                           f"{_show(t1)[:80]} after other genotypes had been mapped"))
                 break
+        # (C') ... and through a grammar object extracted afresh from the same classes (no state that an earlier mapping
+        # may have left on the grammar object, or in a cache keyed by it, can be involved)
+        if not unit.get("spec", {}).get("named"):
+            for gt, t0 in zip(gts, first_pass):
+                try:
+                    g_fresh = ctx.bundle.extract()  # one pristine grammar object per genotype
+                except Exception:  # noqa
+                    break
+                t2 = map_once(gt, g_fresh)
+                r.executions += 1
+                r.count("mapped_through_a_fresh_grammar_object")
+                if t2 != t0:
+                    r.add_violation(Violation(PROP, site, "mapping-depends-on-grammar-object-history", {"rep": rep_kind, "decider": unit["decider"]},
+                                              {"unit": P.clean_unit(unit), "genotype": repr(genotype_snapshot(gt))[:300]},
+                                              f"{ctx.spec['name']}: a genotype mapped to {_show(t0)[:80]} through the grammar object used all along and to "
+                                              f"{_show(t2)[:80]} through a freshly extracted grammar of the same classes"))
+                    break
+        # (D) dynamic SGE only: genotypes that are NOT fully populated (crossover children hold empty or short gene lists for
+        # symbols one parent never read; mutants differ in one gene): the first mapping may extend them from the shared
+        # source, after that the genotype is complete -- every later mapping gives the same program and draws nothing
+        if rep_kind == "dsge" and len(gts) >= 2:
+            from geneticengine.representations.grammatical_evolution.dynamic_structured_ge import Genotype as DG
+
+            def copy_gt(g0, src):
+                return DG(src, {k: list(v) for k, v in g0.dna.items()})
+
+            kids = []
+            seen_k = set()
+            pairs = [(a, b) for a in gts[:6] for b in gts[:6] if a is not b]
+
+            def variation(src):
+                rep = mk(src)
+                pa, pb = pairs[src.randint(0, len(pairs) - 1)]
+                if src.randint(0, 1) == 0:
+                    c1, c2 = rep.crossover(src, copy_gt(pa, src), copy_gt(pb, src))
+                    return [c1, c2]
+                return [rep.mutate(src, copy_gt(pa, src))]
+
+            for ex in explore(variation, max_dev=2, max_execs=150, horizon=300, stats=ExploreStats(),
+                              source_kwargs={"wide_domain": gene_domain(P.GENES_DSGE)}):
+                if ex.exc is not None or ex.capped:
+                    continue
+                for c in ex.result:
+                    k = genotype_snapshot(c)
+                    if k not in seen_k and len(kids) < 40:
+                        seen_k.add(k)
+                        kids.append(c)
+            for kid in kids:
+                w = {"unit": P.clean_unit(unit), "genotype": repr(genotype_snapshot(kid))[:300], "incomplete": True}
+                try:
+                    shared = CountingSource(NativeRandomSource(unit["seed"]))
+                    g3 = copy_gt(kid, shared)
+                    rep = mk(shared)
+                    t1 = R.term(rep.genotype_to_phenotype(g3))
+                    snap1 = genotype_snapshot(g3)
+                    d1 = shared.draws
+                    t2 = R.term(rep.genotype_to_phenotype(g3))
+                    d2 = shared.draws - d1
+                    g3.random = NativeRandomSource(unit["seed"] + 7)
+                    t3 = R.term(mk(g3.random).genotype_to_phenotype(g3))
+                    snap3 = genotype_snapshot(g3)
+                    r.executions += 3
+                    r.count("incomplete_genotypes_mapped")
+                    if d1 > 0:
+                        r.count("incomplete_genotypes_extended_on_demand")
+                        r.nontrivial += 1
+                    if len({t1, t2, t3}) > 1:
+                        r.add_violation(Violation(PROP, site, "remapping-differs", {"rep": rep_kind, "decider": unit["decider"], "incomplete": True}, w,
+                                                  f"{ctx.spec['name']}: a crossover child / mutant mapped to {[R.show(t)[:60] for t in (t1, t2, t3)]} in three "
+                                                  f"consecutive mappings"))
+                    elif d2 > 0 or snap3 != snap1:
+                        r.add_violation(Violation(PROP, site, "shared-source-advanced", {"rep": rep_kind, "decider": unit["decider"], "incomplete": True}, w,
+                                                  f"{ctx.spec['name']}: after the first mapping had completed the genotype, mapping it again served {d2} draw(s) "
+                                                  f"/ changed the genotype"))
+                except HorizonExceeded:
+                    r.capped += 1
+                except Exception as e:  # noqa
+                    if not is_library_error(e):
+                        r.add_violation(Violation(PROP, site, "foreign-exception", {"rep": rep_kind, "exc": type(e).__name__, "incomplete": True}, w,
+                                                  f"{ctx.spec['name']}: {exc_brief(e)}"))
         if len(r.samples) < 1:
             r.samples.append({"grammar": ctx.spec["name"], "rep": rep_kind, "decider": unit["decider"], "genotypes": r.counters.get("genotypes_mapped", 0)})
     finally:
